@@ -842,6 +842,28 @@ def _dataset(rng, cls, n, m, names, nmax, mmax):
                 out.append([[a, b]])
             ds = out
         return ds
+    if cls == "D26":     # a component held together by ties only, around a perfectly balanced pair: a and b are never tied and
+        # ordered each way equally often (before == after < tied: no preference at all between them), while each of them is
+        # tied with the members of a group C in half of the rankings and ordered each way in the others (tying strictly
+        # cheapest): {a, b} + C is one component, the all-tied bucket is not optimal, and the only pair that forbids it is the
+        # balanced one
+        order = list(names)
+        rng.shuffle(order)
+        a, b = order[0], order[1 % len(order)]
+        if a == b:
+            return [[[a]]]
+        grp = order[2:2 + rng.choice([1, 1, 2])] or []
+        rest = order[2 + len(grp):]
+        if not grp:
+            grp, rest = [], rest
+        tail = [[e] for e in rest] if rng.random() < 0.6 else ([list(rest)] if rest else [])
+        k = rng.choice([1, 1, 2])
+        base = [[[a] + grp, [b]], [[b] + grp, [a]], [[a], [b] + grp], [[b], [a] + grp]]
+        ds = []
+        for r in base * k:
+            ds.append([list(bk) for bk in r if bk] + [list(bk) for bk in tail])
+        rng.shuffle(ds)
+        return ds
     if cls == "D25":     # every pair is inverted as often as not (a ranking and its reverse, k times each) and a few partial
         # rankings rank one element of a pair and not the other: the cheapest placement of the pair is decided by the
         # penalties for unranked elements alone, on top of equal (possibly large) costs
